@@ -74,6 +74,10 @@ def cases(tier: str, seed: int) -> list[dict]:
             out.append({"sc": "reconstruct", "et": et})
         for et in ["TRI3", "TRI6", "QUAD4", "TETRA4", "HEXA8", "PRISM6"]:
             out.append({"sc": "projector", "et": et})
+        for et in ["TRI3", "QUAD8", "TETRA4", "PRISM6", "HEXA20"]:
+            out.append({"sc": "deformed", "et": et})
+        for et in ["TRI3", "TRI6", "QUAD4", "TRI10"]:
+            out.append({"sc": "warm-translate", "et": et})
     for i, c in enumerate(out):
         c["id"] = f"C08-{i:05d}-{c['sc']}-{c['et']}-{c.get('mesh', '')}"
         c["index"] = i
@@ -179,7 +183,7 @@ def outward_fraction(mesh, dim, per_group, face_class=None):
 
 def run_case(case: dict, ctx: Ctx) -> None:
     rng = np.random.default_rng([case["seed"], NUM, case["index"]])
-    {"reconstruct": run_reconstruct, "motion": run_motion, "normals": run_normals, "embedded": run_embedded, "locate": run_locate, "projector": run_projector}[case["sc"]](case, ctx, rng)
+    {"reconstruct": run_reconstruct, "motion": run_motion, "normals": run_normals, "embedded": run_embedded, "locate": run_locate, "projector": run_projector, "deformed": run_deformed, "warm-translate": run_warm_translate}[case["sc"]](case, ctx, rng)
 
 
 # ------------------------------------------------------------------------------------------
@@ -392,6 +396,100 @@ def run_embedded(case, ctx, rng):
 
 
 # ------------------------------------------------------------------------------------------
+def run_deformed(case, ctx, rng):
+    """Geometric queries on the configuration X + U given by ``displacementMatrix`` (affine U = A X): Gauss coordinates,
+    area-weighted normals; and - queries being reads - the reference configuration untouched afterwards, however often asked."""
+    et = case["et"]
+    key = f"C08/deformed/{et}"
+    ctx.default_key = key
+    with ctx.monitored("no-exception", key + "/raised"):
+        mesh, dim, measure, cen, info = make_mesh(rng, et)
+    X = mesh.coord
+    A = np.zeros((3, 3))
+    A[:dim, :dim] = rng.uniform(-0.25, 0.25, (dim, dim))
+    t = np.zeros(3)
+    t[:dim] = rng.uniform(-0.5, 0.5, dim)
+    U = X @ A.T + t
+    F = np.eye(3) + A
+    J = float(np.linalg.det(F[:dim, :dim]))
+    groups_b = mesh.Get_list_groupElem(dim - 1)
+    groups_m = mesh.Get_list_groupElem(dim)
+
+    def reference_state():
+        out = []
+        for g in groups_b + groups_m:
+            out.append(np.asarray(g.Get_GaussCoordinates_e_pg(MatrixType.mass)).copy())
+            out.append(np.asarray(g.coord).copy())
+        for g in groups_b:
+            out.append(np.asarray(g.Get_normals_e_pg(MatrixType.mass)).copy())
+        return out
+
+    with ctx.monitored("no-exception", key + "/raised"):
+        with quiet():
+            ref0 = reference_state()
+            for rep in range(2):
+                flux = 0.0
+                worst_x = 0.0
+                for g in groups_b:
+                    x0 = np.asarray(g.Get_GaussCoordinates_e_pg(MatrixType.mass))
+                    xd = np.asarray(g.Get_GaussCoordinates_e_pg(MatrixType.mass, displacementMatrix=U))
+                    worst_x = max(worst_x, float(np.abs(xd - (x0 @ F.T + t)).max()))
+                    nd = np.asarray(g.Get_normals_e_pg(MatrixType.mass, U, normalize=False))
+                    w = np.asarray(g.Get_weight_pg(MatrixType.mass))
+                    flux += float(np.einsum("p,epd,epd->", w, nd, xd - t))
+                for g in groups_m:
+                    x0 = np.asarray(g.Get_GaussCoordinates_e_pg(MatrixType.mass))
+                    xd = np.asarray(g.Get_GaussCoordinates_e_pg(MatrixType.mass, displacementMatrix=U))
+                    worst_x = max(worst_x, float(np.abs(xd - (x0 @ F.T + t)).max()))
+                size = measure ** (1 / dim)
+                ctx.check("deformed-gauss-coordinates", worst_x / size, 1e-12, key + "/gauss-coordinates", query=rep)
+                # divergence theorem on the deformed boundary (magnitude: the orientation of boundary elements is C08's known finding)
+                ctx.check("deformed-flux", abs(abs(flux) - dim * abs(J) * measure) / (dim * abs(J) * measure), 1e-9, key + "/flux-magnitude", query=rep)
+                ref1 = reference_state()
+                ctx.require("query-leaves-reference-untouched", all(np.array_equal(a, b) for a, b in zip(ref0, ref1)), key + "/reference-configuration-moved", query=rep)
+    ctx.describe(f"deformed/{et}", mesh.Ne >= 2, et=et, detF=J)
+
+
+def run_warm_translate(case, ctx, rng):
+    """Point location / interpolation on a planar mesh, before and after translations that take it out of its plane and back,
+    with every cache warm (the queries come first)."""
+    et = case["et"]
+    key = f"C08/warm-translate/{et}"
+    ctx.default_key = key
+    with ctx.monitored("no-exception", key + "/raised"):
+        mesh, dim, measure, cen, info = make_mesh(rng, et)
+    g = mesh.Get_list_groupElem(2)[0]
+    gvec = rng.uniform(-1, 1, 3)
+
+    def query(stage, shift):
+        X = mesh.coord
+        used = gm.used_nodes(mesh)
+        # points: element centroids moved a little towards a vertex (inside straight-sided elements)
+        cen_e = X[g.connect[:, : g.Nvertex]].mean(axis=1)
+        pts = 0.8 * cen_e + 0.2 * X[g.connect[:, 0]]
+        field = X @ gvec + 0.7  # a linear field of the current coordinates
+        with quiet():
+            val = np.asarray(mesh.Evaluate_dofsValues_at_coordinates(pts, field)).ravel()
+        want = pts @ gvec + 0.7
+        # (quadrangles are located by an iterative inverse map that stops at ~1e-6, see the locate scenario)
+        ctx.check("warm-translate-interpolation", float(np.abs(val - want).max()) / (np.abs(want).max() + 1e-300), 1e-6 if et.startswith("QUAD") else 1e-9, key + "/" + stage, shift=shift)
+
+    with ctx.monitored("no-exception", key + "/raised"):
+        query("before", None)
+        with quiet():
+            mesh2 = mesh.copy() if rng.random() < 0.5 else mesh  # a copy carries the caches of the mesh it was made from
+        d = rng.uniform(-0.5, 0.5, 3)
+        d[2] = float(rng.choice([-1, 1])) * float(rng.uniform(0.4, 1.0))
+        mesh_ = mesh2
+        for stage, vec in (("out-of-plane", d), ("in-plane-again", np.array([0.3, -0.2, -d[2]])), ("out-again", np.array([0.0, 0.0, 0.6]))):
+            with quiet():
+                mesh_.Translate(*[float(x) for x in vec])
+            mesh = mesh_
+            g = mesh.Get_list_groupElem(2)[0]
+            query(stage, [float(x) for x in vec])
+    ctx.describe(f"warm-translate/{et}", mesh.Ne >= 2, et=et)
+
+
 def _poly_field(rng, dim, deg):
     terms = [pw for pw in itertools.product(range(deg + 1), repeat=dim) if sum(pw) <= deg]
     coefs = rng.normal(size=(2, len(terms)))
